@@ -115,7 +115,9 @@ def run(ctx):
     distinct = len({d["typed"].__repr__() for d in recs if streams.nontrivial(d)})
     stats = {"evaluations": len(recs) + 2 * ssinfo["programs"], "distinct_nontrivial": distinct,
              "rule": "generated C functions (assignments, +,-,*, unary/cast sugar, if/else, while, do-while, counted for, nested; biased sub-streams: "
-                     "overwrite-then-loop, two loops, loops in both branches) x {fin} x {strict}; every result compared with the calculus on all 3^k "
+                     "overwrite-then-loop, two loops, loops in both branches, chain/rotation loops, tight cycles, for-accumulate, branch-accumulate, pair-cycle; "
+                     "focused sub-streams of the last three; files of 2-3 functions; the exhaustive small scope of streams.small_scope_all: complete in the "
+                     "thorough tier, a seeded sample otherwise) x {fin} x {strict}; every result compared with the calculus on all 3^k "
                      "vectors; non-trivial = distinct typed function with >=1 site and a loop or branch",
              "samples": [progs[len(streams.CORPUS)][1] if len(progs) > len(streams.CORPUS) else progs[0][1], streams.CORPUS[5][1]],
              "outcomes": outcome, "distribution": dist, "coq_model_cases": len(coq_cases), "coq_calculus_cases": len(calc_cases),
